@@ -332,3 +332,16 @@ PROPS["C07"] = {
     "level_text": "Bounded model checking over programs: bundles are chosen through solver-visible choices over a grammar centred on binding structure (exhaustive within the size bound), compiled by the real parser, registry and checker, and compared with a declarative reference of the rules; the consequence for rendering is observed through a build-tagged hook in scope.lookup.",
     "level_note": "Hook: soyhtml/verif_on.go (tag verif). Trusted: go/ssa, gosym, z3, the reference rule set.",
 }
+
+# ---------------------------------------------------------------- C11
+PROPS["C11"] = {
+    "jobs": [
+        Job("soymsg/pomsg", "H_roundtrip", "0..5,0..2,0..2", workers=16, timeout=900),
+        Job("soymsg/pomsg", "H_plural", "1..3", workers=8, timeout=600),
+    ],
+    "bounds": "6 messages (text only; text + placeholders; repeated equal expressions; html tags; two expressions that differ only in parenthesisation; colliding placeholder base names) in 3 contexts (plain, inside a foreach, inside a called template) x 3 catalogues built with the real extraction functions (pomsg.Validate/Msgid/MsgidPlural -> newMessage -> soymsg.Parts): identity, parts reversed, message absent; data: symbolic int in [0,2] and a symbolic byte from {a,b,c,<}; plural message with {case 1}+{default} under catalogues with 1, 2 and 3 plural forms where the bundle's PluralCase returns an arbitrary index below the number of forms, or the English rule",
+    "outside": "PO text syntax and file loading (robfig/gettext/po), locale fallback (x/text/language), the xgettext-soy main wrapper (its extract function is three calls which the harness mirrors), the JavaScript backend (no JS semantics in the engine); messages outside the dictionary; soymsg.Parts runs its regexp natively on concrete text",
+    "assumptions": ["the expected value of a placeholder is what the real renderer prints for a template consisting of that expression alone (the evaluator itself is checked under C01)"],
+    "level_text": "Bounded symbolic model checking of the extraction -> catalogue -> render pipeline for a message dictionary with symbolic data and a symbolic plural-form index: translated output is compared with the composition of the parts' own renderings.",
+    "level_note": "Go side only; PO files and JS are outside. Trusted: go/ssa, gosym, z3.",
+}
